@@ -70,8 +70,8 @@ def run_units(units, tier, seed, searching=False, deadline=None):
     jobs = [(u.prop, u.name, tier, seed, searching) for u in units]
     if not jobs:
         return []
-    nproc = min(len(jobs), int(os.environ.get("VERIF_JOBS", "8")))
-    if nproc <= 1:
+    nproc = max(1, min(len(jobs), int(os.environ.get("VERIF_JOBS", "8"))))
+    if os.environ.get("VERIF_INLINE"):
         return [_run_unit(j) for j in jobs]
     ctxmp = mp.get_context("fork")
     with ctxmp.Pool(nproc) as pool:
@@ -120,6 +120,8 @@ def main(argv=None) -> int:
     a = ap.parse_args(argv)
     prop, tier, seed = a.prop, a.tier, a.seed
     SCRATCH["on"] = bool(a.only) or bool(os.environ.get("RL4CO_REPO")) or bool(os.environ.get("VERIF_SCRATCH"))
+    if SCRATCH["on"]:
+        os.environ["VERIF_SCRATCH_RUN"] = "1"
     t0 = time.time()
     budget_s = float(os.environ.get("VERIF_TIMEOUT_S", "1500" if tier == "quick" else "10000"))
     deadline = t0 + budget_s
@@ -291,7 +293,9 @@ def main(argv=None) -> int:
         "violations": len(fresh) + (1 if (broken and not fresh) else 0),
     }
     partial = bool(a.only) or bool(os.environ.get("RL4CO_REPO")) or bool(os.environ.get("VERIF_SCRATCH"))
-    evdir = os.path.join("/tmp", f"verif-scratch-evidence-{os.getuid()}") if partial else common.EVIDENCE_DIR
+    evdir = os.path.join("/tmp", f"verif-scratch-evidence-{os.getuid()}-{os.getpid()}") if partial else common.EVIDENCE_DIR
+    if partial:
+        print(f"(scratch run: evidence written to {evdir}/{prop}.json)")
     common.jdump(ev, os.path.join(evdir, f"{prop}.json"))
     print(f"{prop} {tier} seed={seed}: theorems {discharged}/{obligations} audited, {evaluations} correspondence cases "
           f"({distinct} distinct), broken ties {len(broken)}, violations {len(fresh)}, {ev['wall_s']}s -> exit {rc}")
